@@ -59,7 +59,7 @@ def source_reg(ctx):
 
 # properties that rest on which cell build_dispatch_table writes for a tuple of groups and on the counters it increments:
 # translators/tablebuild.py -> Gen/GenTab.v -> Properties_tab_source
-SOURCE_TAB = ('C01', 'C02', 'C17')
+SOURCE_TAB = ('C01', 'C02', 'C03', 'C17')
 
 
 def source_tab(ctx):
